@@ -262,6 +262,18 @@ class RgTarget:
             res['functions_extra'].append(describe(m))
             acts = _actions(m.node)
             res['obligations'] += self._exit_establishes(repo, R, m, timeout_ms)
+            # the context-manager protocol: leaving the `with` block by normal exit AND by an exception
+            # must leave the object closed (the timer callback is turned away) with no armed timer
+            mx = cls.find('__exit__')
+            if mx is not None:
+                res['functions_extra'].append(describe(mx))
+                from .interp import ExcClass
+                from .values import ExcVal as EV
+                res['obligations'] += self._exit_establishes(repo, R, mx, timeout_ms, args=[None, None, None],
+                                                             name='prog/context-exit-cancels[normal]')
+                res['obligations'] += self._exit_establishes(repo, R, mx, timeout_ms,
+                                                             args=[ExcClass('UserError'), EV('UserError', ()), None],
+                                                             name='prog/context-exit-cancels[exception]')
             res['paths'] = len(res['obligations'])
         except Unsupported as u:
             res['undecided'].append('unsupported construct: %s' % u)
@@ -270,7 +282,7 @@ class RgTarget:
         res['seconds'] = round(time.time() - t0, 3)
         return res
 
-    def _exit_establishes(self, repo, R, m, timeout_ms):
+    def _exit_establishes(self, repo, R, m, timeout_ms, args=(), name='prog/exit-cancels'):
         """run the whole exit() sequentially from any GI state: afterwards no timer is armed
         and (if the class has a closed flag) the flag is set."""
         out = []
@@ -287,7 +299,7 @@ class RgTarget:
             ip.add_pc(z3.Not(st.other_armed))
             try:
                 try:
-                    ip.call(m, [st.obj], {})
+                    ip.call(m, [st.obj] + list(args), {})
                 except PyRaise:
                     pass
                 now = st.obj.fields['_timer']
@@ -295,7 +307,9 @@ class RgTarget:
                 ok = z3.Not(to_z3(cur))
                 if st.flag:
                     ok = z3.And(ok, to_z3(st.obj.fields[st.flag]))
-                ip.prove('prog/exit-cancels', ok)
+                elif not LOCK_DISCIPLINE['ok'] or True:
+                    pass
+                ip.prove(name, ok)
             except Vv.Infeasible:
                 pass
             work.extend(ip.new_forks)
